@@ -56,6 +56,7 @@ type Client struct {
 	mu       sync.Mutex
 	ws       *websocket.Conn
 	wsWrite  sync.Mutex
+	sendMu   sync.Mutex // serialises Send with the UPGRADE step of Upgrade
 	rxSeq    int64
 	rx       []Rx
 	rxCond   *sync.Cond
@@ -247,6 +248,10 @@ func (c *Client) pollLoop() {
 
 // Send transmits packets on the current transport (ws: one frame each; polling: one POST).
 func (c *Client) Send(ps ...refcodec.EPacket) error {
+	// A compliant client does not write on the old transport once it has sent UPGRADE: a send either
+	// completes on polling before the UPGRADE packet is written, or waits and goes over the websocket.
+	c.sendMu.Lock()
+	defer c.sendMu.Unlock()
 	c.mu.Lock()
 	ws := c.ws
 	tr := c.Transport
@@ -455,6 +460,8 @@ func (c *Client) Upgrade() error {
 	case <-time.After(45 * time.Second):
 		return fmt.Errorf("rawpeer: pending poll not released during upgrade")
 	}
+	c.sendMu.Lock()
+	defer c.sendMu.Unlock()
 	if err := conn.Write(ctx, websocket.MessageText, []byte("5")); err != nil {
 		return err
 	}
